@@ -199,6 +199,11 @@ def conserve(ctx, shard, nshards):
                 # mixed spellings: the reference as seconds since the epoch, the others civil
                 a_txt = "@%d" % R.epoch(a, sa)
                 tagk += ":@"
+            elif kind == "fixed" and not with_time and set(us0) <= {"w", "d"} and rnd.random() < 0.25 \
+                    and abs(R.epoch(a, 0)) < 9 * 10 ** 9:
+                # the reference as the second count of its midnight, the others plain dates
+                a_txt = "@%d" % R.epoch(a, 0)
+                tagk += ":@d"
             try:
                 out, _ = run_lines(ctx.build, "ddiff", [a_txt, "-f", fmt], lines)
             except BatchError as e:
